@@ -261,6 +261,9 @@ func runC02(c *Ctx) {
 
 func runC05(c *Ctx) {
 	w := c.newCaseWriter("dec", dcaseRequires, "dcase", "dcase_ok")
+	oracleW = c.newCaseWriter("oracle", "From JWT Require Import Model.Pipeline.\nOpen Scope Z_scope.", "json * option (string * string * Z) * string * option (ckind * Z * bool)", "pcase_ok")
+	oracleHW = c.newCaseWriter("oracleh", "From JWT Require Import Model.Pipeline.\nOpen Scope Z_scope.", "json * option (string * string)", "hcase_ok")
+	defer func() { oracleW.flush(); oracleHW.flush(); oracleW, oracleHW = nil, nil }()
 	kr := newKeyring()
 	distinct := map[string]bool{}
 	typs := []interface{}{"JWT", "jwt", "Jwt", "JWS", "", nil}
